@@ -3020,10 +3020,10 @@ class MNOT(M_Pattern_One):
     def _leaf_asts(self) -> tp_Set[type[AST]] | None:
         leaf_asts = _LEAF_ASTS_FUNCS.get((p := self.pat).__class__, _leaf_asts_default)(p)
 
-        if not leaf_asts:
-            if leaf_asts is None:
-                return None
+        if leaf_asts is None or not _leaf_asts_exact(p):  # if something other than node type decides then a node of one of those types can still not match the pattern and so match us, indeterminate
+            return None
 
+        if not leaf_asts:
             return ASTS_LEAF__ALL
 
         elif len(leaf_asts) >= _LEN_ASTS_LEAF__ALL:  # >= because maybe some extra node types got in there from the future
@@ -5653,6 +5653,24 @@ def _leaf_asts_default(pat: _Pattern) -> tp_Set[type[AST]] | None:
         return None
 
     return _EMPTY_SET  # from quantifier or some subclassed primitive
+
+def _leaf_asts_exact(pat: _Pattern) -> bool:
+    """Whether the leaf `AST` types gotten for this pattern are exactly the types of the nodes it matches, meaning the
+    pattern is only a test of node type. Otherwise they are a superset, which is fine for everything except `MNOT`."""
+
+    if isinstance(pat, (type, EllipsisType, int, float, complex, bytes, NoneType)):  # primitives never match a node
+        return True
+
+    if (pat_cls := pat.__class__) is M or pat_cls is MNOT:
+        return _leaf_asts_exact(pat.pat)
+
+    if pat_cls is MOR or pat_cls is MAND:
+        return all(_leaf_asts_exact(p) for p in pat.pats)
+
+    if isinstance(pat, (MAST, MTYPES)):
+        return not pat._fields
+
+    return False
 
 def _leaf_asts_type(pat: type) -> tp_Set[type[AST]] | None:
     if issubclass(pat, M_Pattern):
